@@ -510,11 +510,13 @@ SignalHandler::SignalHandler(BasicSolver &s)
   solver_.set_interrupter(this);
   signal_message_ptr_ = message_.c_str();
   signal_message_size_ = static_cast<unsigned>(message_.size());
+  // Reset the counter before the handlers are installed: a signal arriving
+  // between signal() and a later reset would otherwise be forgotten.
+  stop_ = 0;
   std::signal(SIGINT, HandleSigInt);
   MP_VERIF_POINT("sigh.ctor.after_signal_int");
   std::signal(SIGTERM, HandleSigInt);
   MP_VERIF_POINT("sigh.ctor.after_signal_term");
-  stop_ = 0;
   MP_VERIF_POINT("sigh.ctor.end");
 }
 
